@@ -17,7 +17,7 @@ EXPLANATION = B.MIXED + (
     "P (symbolic cut-offs d1, d2, banded-matrix domain over the real AST of CompositeOperationType.compute_operator): every tensor term kron(X, Y) of "
     "the beam-splitter generator has band offsets that sum to zero, i.e. every non-zero entry ((i,j),(k,l)) has i+j == k+l (it commutes with the total "
     "number); the generator is Hermitian; the operator is expm(1j * eta * generator); compute_dimensions returns total+1 for both modes; phase_operator is "
-    "diagonal with entries exp(i n theta). Lemma (written, DESIGN section 5): exp of a generator commuting with N commutes with N; cascades by induction. "
+    "diagonal with entries exp(i n theta). Lemma (Lean / Mathlib, lemmas/Lemmas.lean): exp of a generator commuting with N commutes with N; a cascade of commuting elements commutes with N. "
     "B (bounded): joint state == independent SU(2) mode transformation (polynomial expansion, not the matrix exponential) and the total-number "
     "distribution is unchanged, on number states, superpositions, mixtures and modes entangled with polarization / other modes, angles incl. negative and "
     "> 2 pi, cascades on three modes; Mach-Zehnder built as in examples/: sampled detection probabilities == sin^2(phi/2), cos^2(phi/2).")
@@ -138,7 +138,9 @@ def run(rep, tier):
     except Exception as ex:
         rep.undecided.append(f"phase operator obligations: {ex}")
     kernels.run_generators(rep, ["apply_operator_vector", "apply_operator_matrix"])
+    from vf import lemmas
+    lemmas.lemma_obligations(rep, ["exp_commutes_of_generator_commutes", "cascade_commutes"])
     B.run_b(rep, opcells.optics_cells(tier, common.seed()), ["C11", "C03", "C01"], tier=tier)
     rep.assume("expm (JAX Pade approximant) is the matrix exponential (trusted); machine arithmetic treated as mathematical",
-               "Lemma (written): [N, G] = 0  =>  [N, exp(i eta G)] = 0; cascades conserve by induction")
+               "Lean lemma instantiation: the Python generator matrices are the lemma's G at every cut-off (generator VCs above); float expm ~ exp is assumed")
     rep.trust("z3", "pyvc banded-matrix evaluator (own code, numeric cross-check in C12)")
